@@ -3,8 +3,8 @@
 (* The harness logs, per call, the observers (length, names in iteration order, slot index per name from    *)
 (* serialize_state_model, the vector) and for updates which slots changed bit-wise.                         *)
 EXTENDS StateModel, TraceLib
-VARIABLE l
-tvars == <<sm, vec, l>>
+VARIABLES l, codec
+tvars == <<sm, vec, l, codec>>
 Ev == Rec[l]
 Chk(name, cond) == IF cond THEN TRUE ELSE PrintT(<<"FAILED", name, l>>) /\ FALSE
 ObsOK(o, s) == /\ o.len = Len(s)
@@ -45,8 +45,18 @@ T_App == /\ Ev.ev = "SMApp" /\ UNCHANGED <<sm, vec>>
                       \A i \in DOMAIN o.names : \E j \in DOMAIN E :
                           /\ E[j].name = o.names[i] /\ Ev.units[i] = E[j].unit
                           /\ SCloseTo(Ev.vec[i], E[j].init, SAdd(SAbs(E[j].init), SInt(1)), 10))
-TInit == l = 1 /\ sm = <<>> /\ vec = <<>>
-TNext == l <= Len(Rec) /\ l' = l + 1 /\ (T_New \/ T_Extend \/ T_Init \/ T_Get \/ T_Set \/ T_App)
+TInit == l = 1 /\ sm = <<>> /\ vec = <<>> /\ codec = [s |-> 0, u |-> 0, b |-> 0, f4 |-> 0]
+(* typed custom features (CustomFeatureFormat: signed / unsigned integer, boolean as 0/1, floating point in quarters): *)
+(* `codec` is what each of the four typed slots holds; a typed read returns it exactly, a typed write replaces that    *)
+(* slot only, accessors of another type refuse, the ordinary features next to them (distance 5, time 6) are untouched *)
+ReadOK(rd, c) == /\ rd.s = c.s /\ rd.u = c.u /\ rd.b = c.b /\ rd.f4 = c.f4 /\ rd.refuse /\ rd.d = 5 /\ rd.t = 6
+T_CodecInit == /\ Ev.ev = "SMCodecInit" /\ Ev.len = 6
+               /\ codec' = [s |-> Ev.s, u |-> Ev.u, b |-> Ev.b, f4 |-> Ev.f4]
+               /\ ReadOK(Ev.read, codec') /\ UNCHANGED <<sm, vec>>
+T_CodecSet == /\ Ev.ev = "SMCodecSet" /\ Ev.ok /\ Ev.wrong_refused /\ Ev.len = 6
+              /\ codec' = [codec EXCEPT ![Ev.which] = Ev.val]
+              /\ ReadOK(Ev.read, codec') /\ UNCHANGED <<sm, vec>>
+TNext == l <= Len(Rec) /\ l' = l + 1 /\ ((UNCHANGED codec /\ (T_New \/ T_Extend \/ T_Init \/ T_Get \/ T_Set \/ T_App)) \/ T_CodecInit \/ T_CodecSet)
 TSpec == TInit /\ [][TNext]_tvars
 Track == TrackPos(l)
 NotStop == NotStopped(l)
